@@ -177,6 +177,7 @@ def _unpack_indexed(fn, pinned):
         names = [f"{t}__{k}" for k in range(width)]
         if any(nm in stores for nm in names):
             continue
+        fn._normalised_away = getattr(fn, "_normalised_away", set()) | {t}
         tup = ast.Tuple(elts=[ast.copy_location(ast.Name(id=nm, ctx=ast.Store()), st.targets[0]) for nm in names], ctx=ast.Store())
         st.targets = [ast.copy_location(tup, st.targets[0])]
         for sub, k in idx:
@@ -199,15 +200,20 @@ def fold_function(fi):
     pinned = set(PIN["locals"].get(fi.qualname, ()))
     if fi.qualname not in PIN["locals"]:
         return 0
-    pre = _unroll_literal_loops(fn, pinned)
-    pre += _split_parallel(fn, pinned) + _unpack_indexed(fn, pinned)
+    # the shape normal forms are applied to every local, pinned or not: a normal form must not depend on what a variable is called
+    pre = _unroll_literal_loops(fn, set())
+    pre += _split_parallel(fn, set()) + _unpack_indexed(fn, set())
     # renamed locals look like new ones: when the function has lost as many pinned locals as it has gained new ones, the new names are
     # (most likely) the old locals under another name - the rules already follow renamed locals by shape, so nothing is folded there
     present = {n.id for n in ast.walk(fn) if isinstance(n, ast.Name) and isinstance(n.ctx, ast.Store)}
     a_ = fn.args
     params = {x.arg for x in a_.posonlyargs + a_.args + a_.kwonlyargs}
     missing = {p for p in pinned if p not in present and p not in params and p not in getattr(fn, "_normalised_away", ())}
-    gained = {p for p in present if p not in pinned}
+    import re as _re
+    gained = {p for p in present if p not in pinned and not _re.search(r"__u?\d+$", p)}          # names made by the normal forms are not the author's
+    # a renamed local that a normal form took apart (data_v -> data_v__0 ..) still counts as the renamed one
+    gained |= {p for p in getattr(fn, "_normalised_away", ()) if p not in pinned}
+    missing -= {p for p in missing if p in getattr(fn, "_normalised_away", ())}
     if missing and len(gained) <= len(missing):
         return pre
     total = pre
